@@ -1,7 +1,8 @@
 (* C09 — packaging variants of a program are semantically transparent.
    Property theorems only; models in Pack/PackModel.v (declaration lists, token lists with spans and hygiene sites,
-   the ascent_run! / Default code paths, the run_timeout guard, the timing wrappers) over the engine model
-   Engine/Eval.v; proofs in Pack/PackProofs.v.
+   the ascent_run! / Default code paths with the index build after the initialisers as an explicit, switchable step, the
+   run_timeout guard, the timing wrappers) over the engine model Engine/Eval.v, and Pack/PackLatModel.v (the same run block
+   over LatEngine/LatEval.v, programs with lattices); proofs in Pack/PackProofs.v, Pack/PackLatProofs.v.
 
    These are small theorems about the packaging LOGIC.  That rustc, macro_rules expansion, span printing, cargo
    feature resolution and the generated glue agree with the models is carried by the tie (gen/props/c09.py): every
@@ -24,6 +25,11 @@ From AV Require Import Engine.Vocab.
 From AV Require Import Engine.Examples.
 From AV Require Import Pack.PackModel.
 From AV Require Import Pack.PackProofs.
+From AV Require Import LatEngine.LatSyntax.
+From AV Require LatEngine.LatEval.
+From AV Require Import LatEngine.LatVocab.
+From AV Require Import Pack.PackLatModel.
+From AV Require Import Pack.PackLatProofs.
 Import ListNotations.
 Open Scope Z_scope.
 
@@ -57,11 +63,67 @@ Theorem c09_dedup_keeps_last : forall (A : Type) (cmp : A -> A -> bool) (l : lis
 Proof. exact @dedup_equivalence_keeps_last. Qed.
 
 (* ---- relation r(..) = e starts from exactly the tuples of e; ascent_run! = ascent! + run() ---- *)
-(* ascent_run!: default value, initialisers assigned, indices built once (only if there is an initialiser), SCCs
+(* ascent_run!: default value, initialisers assigned (rows set, indices EMPTY), indices built once (iff there is an
+   initialiser), SCCs — and no other index build in the block —
    = run() on the input consisting of exactly the initialisers' tuples; for every plan, interpretation and oracle *)
 Theorem c09_init_is_input : forall (I : interp) (swap : list tuple -> list tuple -> bool) fuel pl (inits : list (rel * list tuple)),
   ascent_run_code I swap fuel pl inits = run_plan I swap fuel pl (init_state (assign_inits inits)).
 Proof. exact init_is_input. Qed.
+
+(* the index build is an explicit step of the modelled block (PackModel.default_value_when): after the assignments alone the
+   rows are set and the indices are empty (`assigned`); the generated `update_indices_priv()` establishes what the SCC code
+   relies on, `indexed` (stored = rows), and c09_init_is_input is proved THROUGH that precondition *)
+Theorem c09_index_build_establishes_precondition : forall (inits : list (rel * list tuple)),
+  indexed (default_value inits) /\ rows (default_value inits) = assign_inits inits.
+Proof. exact index_build_establishes_precondition. Qed.
+Theorem c09_assigned_not_indexed : forall (inits : list (rel * list tuple)), assign_inits inits <> [] -> ~ indexed (assigned inits).
+Proof. exact assigned_not_indexed. Qed.
+Theorem c09_run_sccs_indexed : forall (I : interp) swap fuel pl st, indexed st -> run_sccs I swap fuel pl st = run_plan I swap fuel pl st.
+Proof. exact run_sccs_indexed. Qed.
+
+(* the block with the statement generated or not: it is run() on the initialisers' tuples if the build is generated or
+   there is nothing to index (the code generates it iff there is an initialiser: both cases of default_value) ... *)
+Theorem c09_run_block_when_correct : forall (I : interp) swap (emit : bool) fuel pl inits,
+  emit = true \/ assign_inits inits = [] ->
+  run_block_when I swap emit fuel pl inits = run_plan I swap fuel pl (init_state (assign_inits inits)).
+Proof. exact run_block_when_correct. Qed.
+(* ... and ONLY then: a run block that omits the index build does not satisfy c09_init_is_input (the head update looks every
+   derived row up in the stored indices, also for relations that no rule body reads) *)
+Theorem c09_index_build_needed : forall emit : bool,
+  (forall fuel pl inits, run_block_when std_interp std_swap emit fuel pl inits
+                         = run_plan std_interp std_swap fuel pl (init_state (assign_inits inits))) ->
+  emit = true.
+Proof. exact index_build_needed. Qed.
+(* about a NARROWER generation condition only (not the code's): "index only when some rule body reads an initialised
+   relation" omits the build for write-only accumulators; the result then holds a row twice and is not run() on the
+   initialisers' tuples, while the block as generated is *)
+Theorem c09_index_build_only_if_read_refuted :
+  exists pl inits st,
+    some_initialised_read pl inits = false
+    /\ run_block_when std_interp std_swap (some_initialised_read pl inits) 5 pl inits = Some st
+    /\ ~ NoDup (rows st)
+    /\ run_plan std_interp std_swap 5 pl (init_state (assign_inits inits)) <> Some st
+    /\ ascent_run_code std_interp std_swap 5 pl inits = run_plan std_interp std_swap 5 pl (init_state (assign_inits inits)).
+Proof. exact index_build_only_if_read_refuted. Qed.
+Example c09_example_write_only_initialised :
+  option_map rows (run_block_when std_interp std_swap true 5 wo_plan wo_inits) = Some [(1%nat, [1]); (0%nat, [1])]
+  /\ option_map rows (run_block_when std_interp std_swap false 5 wo_plan wo_inits) = Some [(1%nat, [1]); (0%nat, [1]); (1%nat, [1])]
+  /\ option_map rows (ascent_run_code std_interp std_swap 5 wo_plan wo_inits) = Some [(1%nat, [1]); (0%nat, [1])].
+Proof. exact wo_example. Qed.
+
+(* the same block over the model of the generated code for programs WITH LATTICES (LatEngine/LatEval.v): one index build,
+   then the SCCs = run() on the initialisers' rows, for every interpretation, join and iteration-order oracle; without the
+   build a lattice gets a second row for a key its initialiser already holds *)
+Theorem c09_lattice_init_is_input : forall (V : Type) (I : linterp V) islat jm shuffle swap_oracle fuel pl (R : rel -> list (vtuple V)),
+  lat_ascent_run_code I islat jm shuffle swap_oracle fuel pl R = LatEval.run_plan I islat jm shuffle swap_oracle fuel pl R.
+Proof. exact @lat_init_is_input. Qed.
+Theorem c09_lattice_without_index_build_refuted :
+  exists rows, wl_block false = Some rows /\ ~ NoDup (map (@tkey Z) rows)
+               /\ wl_block false <> option_map (fun st => LatEval.l_rows st 1%nat) (LatEval.run_plan lv_interp (lv_islat wl_lats) (lv_jm wl_lats) lv_shuffle lv_swap 5 wl_plan wl_rows).
+Proof. exact lat_without_index_build_refuted. Qed.
+Example c09_example_lattice_index_build :
+  wl_block true = Some [[1; 6]; [2; 2]] /\ wl_block false = Some [[1; 6]; [1; 1]; [2; 2]].
+Proof. exact lat_index_build_needed. Qed.
 
 (* ascent! with initialisers: Default::default() followed by run() is the same function of the initialisers *)
 Theorem c09_ascent_run_equals_struct_run : forall (I : interp) swap fuel pl inits,
@@ -145,6 +207,10 @@ Proof. vm_compute. reflexivity. Qed.
 
 Print Assumptions c09_redecl_last_wins. Print Assumptions c09_redecl_last_initialiser. Print Assumptions c09_example_init_then_bare. Print Assumptions c09_dedup_keeps_last.
 Print Assumptions c09_init_is_input. Print Assumptions c09_ascent_run_equals_struct_run. Print Assumptions c09_ascent_run_least_model.
+Print Assumptions c09_index_build_establishes_precondition. Print Assumptions c09_assigned_not_indexed. Print Assumptions c09_run_sccs_indexed.
+Print Assumptions c09_run_block_when_correct. Print Assumptions c09_index_build_needed. Print Assumptions c09_index_build_only_if_read_refuted.
+Print Assumptions c09_example_write_only_initialised.
+Print Assumptions c09_lattice_init_is_input. Print Assumptions c09_lattice_without_index_build_refuted. Print Assumptions c09_example_lattice_index_build.
 Print Assumptions c09_run_is_timeout_max. Print Assumptions c09_run_via_timeout_is_run.
 Print Assumptions c09_timing_flags_inert.
 Print Assumptions c09_include_is_splice. Print Assumptions c09_old_span_split_refuted.
